@@ -41,6 +41,8 @@ def gen_graph(rng, nmax, p_remote):
         nd = {"k": rng.randint(0, 99), "ins": ins, "ex": rng.random() < p_remote}
         if len(ins) == 1 and rng.random() < 0.25:
             nd["macro"] = True      # a nested macro child with one input
+        elif len(ins) == 1 and rng.random() < 0.3:
+            nd["fk"] = rng.randint(1, 9)    # its class comes from a factory of same-named closures (computes the same function)
         ns.append(nd)
     return ns
 
@@ -124,6 +126,9 @@ def build(case, name="wf", cls=None):
                 kw[nodes.ARG[j]] = inp[1]
         if nd.get("macro"):
             node = M2(label=f"n{i}", k=nd["k"], **({"x": kw["a"]} if "a" in kw else {}))
+        elif nd.get("fk"):
+            make_lin1(nd["fk"] + 1)      # another closure of the same name was wrapped just before
+            node = make_lin1(nd["fk"])(label=f"n{i}", **dict(kw, k=nd["k"] - nd["fk"]))
         else:
             node = nodes.LIN[m](label=f"n{i}", **kw)
         wf.add_child(node)
@@ -152,9 +157,28 @@ def eff(case):
 from pyiron_workflow.nodes.macro import as_macro_node  # noqa: E402
 
 
+from pyiron_workflow.nodes.function import as_function_node  # noqa: E402
+
+
+@as_function_node("y")
+def LinTwice(tag, k, a, a2):
+    """Lin1 reading its argument from two channels: the macro input x feeds BOTH, and nothing else"""
+    if a != a2:
+        raise ValueError(f"the two readings of the macro's input differ: {a} / {a2}")
+    return nodes.lin(tag, k, [a])
+
+
+def make_lin1(shift):
+    """node classes made by a factory: every call wraps ANOTHER function of the same name (a closure over `shift`)"""
+    @as_function_node("y")
+    def LinF(tag, k, a):
+        return nodes.lin(tag, k + shift, [a])
+    return LinF
+
+
 @as_macro_node("y")
 def M2(self, k, x):
-    self.a = nodes.Lin1(tag=-1, k=k, a=x)
+    self.a = LinTwice(tag=-1, k=k, a=x, a2=x)
     self.b = nodes.Lin2(tag=-2, k=5, a=self.a, b=7)
     return self.b
 
